@@ -15,7 +15,7 @@ RULE = (
     "distinct = distinct event digests among those."
 )
 PROBES = [">=3-blocks", "index-with-maxdelay>0", "nbands-not-dividing-nchans", "accel!=0", "accel-moves-bins", "exact-tie-samples", "near-integer-period-ratio",
-          "two-gulps-compared", "counts-observed", "pulse-train", "kind:fil", "kind:tim", "gulp-raised-to-2maxdelay", "fault-raised", "pre-history-call", "default-gulp", "held-cube-rechecked", "tim-strided-input", "reentrant-fold-inside-allocator"]
+          "two-gulps-compared", "counts-observed", "pulse-train", "kind:fil", "kind:tim", "gulp-raised-to-2maxdelay", "fault-raised", "pre-history-call", "default-gulp", "held-cube-rechecked", "tim-strided-input", "reentrant-fold-inside-allocator", "header-carries-its-own-accel"]
 COMPONENTS = {
     "real": ["sigpyproc.base.Filterbank.fold", "sigpyproc.timeseries.TimeSeries.fold", "kernels.fold (compiled)", "FilReader.read_plan", "FoldedData container"],
     "simulated": ["io.FileIO -> SimFileIO (input read events/faults)", "kernels.fold wrapped by a recording pass-through (to read count_ar)", "input files (harness encoder)"],
